@@ -89,6 +89,47 @@ func genC13Archive(c *Ctx, r *RNG, small bool) c14Archive {
 	return a
 }
 
+// c13NonCanonical re-encodes the archive's CARv1 header in legal but non-canonical CBOR (version
+// as a 1- or 2-byte uint, the two map keys swapped, the roots array with a 1-byte length) and
+// returns the archive with each of them (CARv2: same padding, DataSize adjusted, no index).
+// Whether go-ipld-cbor accepts a variant is recorded in the header oracle table.
+func c13NonCanonical(a c14Archive) [][]byte {
+	hdrVarint := uvarintLen(uint64(a.hdrLen - 1))
+	for uvarintLen(uint64(a.hdrLen-hdrVarint))+a.hdrLen-hdrVarint != a.hdrLen {
+		hdrVarint++
+	}
+	hb := a.payload[hdrVarint:a.hdrLen] // a2 65 roots <array> 67 version 01
+	rootsArr := hb[7 : len(hb)-9]
+	sections := a.payload[a.hdrLen:]
+	key := func(s string) []byte { return append([]byte{0x60 + byte(len(s))}, s...) }
+	var variants [][]byte
+	mk := func(parts ...[]byte) {
+		body := []byte{0xa2}
+		for _, p := range parts {
+			body = append(body, p...)
+		}
+		variants = append(variants, body)
+	}
+	mk(key("roots"), rootsArr, key("version"), []byte{0x18, 0x01})
+	mk(key("roots"), rootsArr, key("version"), []byte{0x19, 0x00, 0x01})
+	mk(key("version"), []byte{0x01}, key("roots"), rootsArr)
+	if rootsArr[0] >= 0x80 && rootsArr[0] < 0x98 {
+		long := append([]byte{0x98, rootsArr[0] - 0x80}, rootsArr[1:]...)
+		mk(key("roots"), long, key("version"), []byte{0x01})
+	}
+	var out [][]byte
+	for _, body := range variants {
+		p := append(varint.ToUvarint(uint64(len(body))), body...)
+		p = append(p, sections...)
+		if a.isV2 {
+			out = append(out, v2ContainerX(p, a.file[51:a.base], 0, 0, 0, nil))
+		} else {
+			out = append(out, p)
+		}
+	}
+	return out
+}
+
 func init() {
 	register("c13", func(c *Ctx) {
 		nArch := 40 * c.Scale
@@ -100,7 +141,20 @@ func init() {
 			emit := func(f []byte, how string) {
 				o := genC13Opts(r, a)
 				validate := r.Chance(85)
-				emitInspect(c, o, f, validate, how, validate && nb >= 2)
+				// history on the same Reader before the Inspect under test
+				var hist []uint64
+				if r.Chance(55) {
+					for n := 1 + r.Intn(3); n > 0; n-- {
+						hist = append(hist, pick(r, []uint64{1, 1, 1, 2, 3, 4, 5}))
+					}
+				}
+				for _, h := range hist {
+					c.Count(fmt.Sprintf("history:op%d", h))
+				}
+				if len(hist) == 0 {
+					c.Count("history:none")
+				}
+				emitInspect(c, o, f, validate, how, hist, validate && nb >= 2)
 				c.Count("input:" + how)
 				if o.zeof {
 					c.Count("opt:zeof")
@@ -115,6 +169,11 @@ func init() {
 			// the valid archive under several option sets
 			for t := 0; t < 4; t++ {
 				emit(a.file, "valid")
+			}
+			// the same archive with a legal but non-canonical CBOR header
+			for _, f := range c13NonCanonical(a) {
+				emit(f, "noncanonical-header")
+				emit(f, "noncanonical-header")
 			}
 			if !small {
 				continue
